@@ -173,10 +173,41 @@ def ustr_probe(ctx):
     return {"ustr_probe": "agrees with Go (%d cases)" % (len(want) - 1)}
 
 
+def grow_probe(ctx):
+    """append beyond the int range (zero-size elements) and copy/share behaviour of the conversions: one small program, -O0,
+    against the Go toolchain (the end-to-end replay of Lean's growSlice64_len_overflow_counterexample)"""
+    from vlib import c05_grow as G
+    d = os.path.join(ctx.scratch, "e2e-c05-grow")
+    e2e.write_module(d, {"main.go": open(os.path.join(H, "grow_probe.go.txt")).read()})
+    refbin = os.path.join(d, "ref.bin")
+    p = e2e.go_run_reference(ctx, d, refbin)
+    if p.returncode != 0:
+        raise RuntimeError("grow probe does not build with the Go toolchain: " + (p.stdout + p.stderr)[-800:])
+    want = [l for l in e2e.run_prog(refbin)[1].split("\n") if l.startswith("@")]
+    if not want or want[-1] != "@done":
+        raise RuntimeError("grow probe: the Go-built reference did not finish: %s" % want)
+    out_bin = os.path.join(d, "probe.bin")
+    p = e2e.llgo_build(ctx, d, out_bin, opt="-O0")
+    if p.returncode != 0 or not os.path.exists(out_bin):
+        raise HarnessBuildError("llgo build of harness/c05/grow_probe.go.txt failed:\n" + (p.stdout + p.stderr)[-2000:])
+    got = [l for l in e2e.run_prog(out_bin)[1].split("\n") if l.startswith("@")]
+    diff = [(a, b) for a, b in zip(got + ["<missing>"] * len(want), want) if a != b]
+    ovf = [x for x in diff if x[1].split()[0] in ("@zs-double", "@zs-one", "@arr0-double")]
+    rest = [x for x in diff if x not in ovf]
+    if ovf:
+        ctx.report(G.KEY_LENOVF, "compiled by llgo, `s := make([]struct{}, 1<<62); s = append(s, s...)` prints `%s`, Go toolchain `%s`" % ovf[0],
+                   {"program": "harness/c05/grow_probe.go.txt", "llgo": got, "go": want})
+    if rest:
+        ctx.report("e2e-O0:grow-probe:%s" % rest[0][1], "conversions copy / slicing shares / append near the int limit: llgo prints `%s`, Go toolchain `%s`" % rest[0],
+                   {"program": "harness/c05/grow_probe.go.txt", "llgo": got, "go": want})
+    return {"grow_probe": "agrees with Go (%d lines)" % len(want) if not diff else "differs on %d lines" % len(diff)}
+
+
 def run_e2e(ctx, rng, quick):
     e2e.build_llgo(ctx)
     ctx.log("e2e: llgo built from the working tree")
     probe_cov = ustr_probe(ctx)
+    probe_cov.update(grow_probe(ctx))
     # ---- one script for everything
     scripts = [("e2e-witness-zero", ["reset", "nil r0 0", "mk r1 1 1 0 0", "app r2 r0 r1 -"]),
                ("e2e-witness-overlap", ["reset", "mk r0 4 4 1 7", "appself r1 r0 1 2 -"])]
